@@ -48,14 +48,21 @@ def odd_decomp(q: Fraction):
     return n >> tz, e + tz
 
 
+_BV_CACHE: dict = {}
+
+
 def bound_value(b):
     """Bound field (RealFloat or python float +-inf) -> Fraction or +-INF."""
     if isinstance(b, float):
         return b
-    d = den(b)
-    if d in (PZERO, NZERO):
-        return Fraction(0)
-    return d
+    key = (b.s, b.c, b.exp)
+    v = _BV_CACHE.get(key)
+    if v is None:
+        d = den(b)
+        v = Fraction(0) if d in (PZERO, NZERO) else d
+        if len(_BV_CACHE) < 200000:
+            _BV_CACHE[key] = v
+    return v
 
 
 # ---------------------------------------------------------------------------
@@ -69,6 +76,8 @@ def af_fields(af):
 def finite_in(prec, exp, pos, neg, q: Fraction) -> bool:
     """Finite non-zero q against the four magnitude fields."""
     if not dyadic(q):
+        return False
+    if pos != pos or neg != neg:                # a NaN bound describes nothing
         return False
     if q > 0:
         if not isinstance(pos, float) and q > pos:
@@ -356,10 +365,8 @@ def aspect(bound, d) -> str:
     if f is None:
         return 'not-member'
     prec, exp, pos, neg = f
-    if d > 0 and d > pos:
-        return 'above-pos-bound'
-    if d < 0 and d < neg:
-        return 'below-neg-bound'
+    if (d > 0 and d > pos) or (d < 0 and d < neg) or pos != pos or neg != neg:
+        return 'outside-bounds'
     c, e = odd_decomp(d)
     if e < exp:
         return 'finer-than-exp'
